@@ -147,3 +147,44 @@ func VerifC20Secrets() {
 		}
 	}
 }
+
+// VerifC20Renamed: a secret sourced from a variable is declared in the main file or in an included file, and a later
+// file points it at another variable: the project holds the value of the variable finally named, and only that one
+// can show up when secret content is asked for.
+func VerifC20Renamed() {
+	w := vrtRoot() + "/w"
+	oldVal := "OLD" + vrtStringN("old", 1, "ab1")
+	newVal := "NEW" + vrtStringN("new", 1, "ab1")
+	env := types.Mapping{"A_VAR": oldVal, "B_VAR": newVal}
+	declared := map[string]any{"services": map[string]any{"s": map[string]any{"image": "i", "secrets": []any{"tok"}}},
+		"secrets": map[string]any{"tok": map[string]any{"environment": "A_VAR"}, "other": map[string]any{"environment": "A_VAR"}}}
+	first := declared
+	if vrtChoice("declaredInInclude", 2) == 1 {
+		vrtYamlFile(w+"/inc/compose.yaml", declared)
+		first = map[string]any{"include": []any{"inc/compose.yaml"}, "services": map[string]any{"own": map[string]any{"image": "i"}}}
+	}
+	later := map[string]any{"secrets": map[string]any{"tok": map[string]any{"environment": "B_VAR"}}}
+	p, err := tcLoadProject(env, nil, first, later)
+	vrtObserve("err", err != nil)
+	vrtAssert("loads", err == nil)
+	if err != nil {
+		return
+	}
+	vrtAssert("variable-finally-named", p.Secrets["tok"].Environment == "B_VAR")
+	vrtAssert("value-of-the-variable-finally-named", p.Secrets["tok"].Content == newVal)
+	vrtAssert("untouched-secret-keeps-its-value", p.Secrets["other"].Content == oldVal)
+	for _, json := range []bool{false, true} {
+		var plain, full []byte
+		var e1, e2 error
+		if json {
+			plain, e1 = p.MarshalJSON()
+			full, e2 = p.MarshalJSON(types.WithSecretContent)
+		} else {
+			plain, e1 = p.MarshalYAML()
+			full, e2 = p.MarshalYAML(types.WithSecretContent)
+		}
+		vrtAssert("renders", e1 == nil && e2 == nil)
+		vrtAssert("no-value-by-default", !c20Contains(string(plain), oldVal) && !c20Contains(string(plain), newVal))
+		vrtAssert("content-on-request-is-the-current-value", c20Contains(string(full), newVal))
+	}
+}
